@@ -125,7 +125,10 @@ def check_lengths(case, cl):
         cl.add("far_from_origin_in_resolutions")
     # optionally another path was traced on the same builder just before
     run = geom.run_shape(start, case["mode"], case["dir"], 9, d, res=res,
-                         pre=case.get("pre"), rehearse=case.get("rehearse"))
+                         pre=case.get("pre"), rehearse=case.get("rehearse"),
+                         mirror=bool(case.get("mirror")) and not case.get("rehearse"))
+    if case.get("mirror") and not case.get("rehearse") and start is not None:
+        cl.add("mirror_transform_active")
     if case.get("pre"):
         cl.add("after_another_traced_path")
     if case.get("rehearse"):
@@ -280,6 +283,7 @@ def run_shard(ctx):
         wide_radius=st.booleans(), ratio=log_ratio(500),
         rehearse=st.sampled_from([None, None, None, 3.7, 1.37, 7.3, 0.73]),
         far_mult=st.sampled_from([None, None, None, 1.5e4, 4e4]),
+        mirror=st.sampled_from([False, False, True]),
         far_sign=st.sampled_from([[1, 1], [-1, 1], [1, -1], [-1, -1]]),
         pre=st.one_of(st.none(), st.none(), hist.shape_strategy(2)))), body_len, 45 if quick else 1500, sub="lengths")
 
